@@ -10,6 +10,17 @@ UNARY = dict(exp=np.exp, expm1=np.expm1, sin=np.sin, cos=np.cos, tan=np.tan, sin
              log1p=np.log1p, log=np.log, sqrt=np.sqrt)
 
 
+def _carrier(k, powop):
+    """the exponent as a python int (powop True / 'int'), a float ('float'), a numpy integer ('npint') or a numpy float32 ('npfloat')"""
+    if powop == 'float':
+        return float(k)
+    if powop == 'npint':
+        return np.int64(k)
+    if powop == 'npfloat':
+        return np.float32(k)
+    return k
+
+
 def make_fun(prog, c, a, powop=False, p=0.0):
     """f(x) for the program in the local variable u = c*(x - a) + p; powop: integer powers are written with the
     power operator (u**2, u**3) instead of as products; p: inner base value (0 for the specification's own programs)"""
@@ -26,9 +37,9 @@ def make_fun(prog, c, a, powop=False, p=0.0):
             elif op == 'powm12':
                 A = A ** -0.5
             elif op == 'ipow2':
-                A = A ** 2 if powop else A * A
+                A = A ** _carrier(2, powop) if powop else A * A
             elif op == 'ipow3':
-                A = A ** 3 if powop else A * A * A
+                A = A ** _carrier(3, powop) if powop else A * A * A
             elif op == 'add1':
                 A = A + 1.0
             elif op == 'sub_half':
